@@ -138,6 +138,11 @@ Definition calculate_discrete_argmax (values : arr val) (choice_axes : option (l
     | None => (None, _max)
     end in
   (dense_argmax, sparse_argmax, _max).
+
+(* get_discrete_policy_calculator(variable_info) = partial(_calculate_discrete_argmax, choice_axes=determine_discrete_dense_choice_axes(variable_info)) *)
+Definition get_discrete_policy_calculator (variable_info : list varinfo) (values : arr val) (choice_segments : option (list nat * nat))
+  : option (arr nat) * option (arr nat) * arr val :=
+  calculate_discrete_argmax values (determine_discrete_dense_choice_axes variable_info) choice_segments.
 """
         print("SimulateKernels.v: retrieve_non_sparse_choices, filter_ccv_policy, determine_discrete_dense_choice_axes, _calculate_discrete_argmax")
     except (TranslationError, SyntaxError, OSError, IndexError, AttributeError) as e:
